@@ -10,6 +10,7 @@
     heap OP*                        -> per op `RES;MSG;…;MSG` (result, then every object of the heap)
          OP: n:U:P NewMessage | z:U:P &Message{UUID,Payload} | c:I Copy | a:I shallow struct copy (shares the map)
              s:I:K:V Metadata.Set | g:I:K Metadata.Get | e:I:J Equals | u:I:U set UUID | p:I:P set Payload
+             t:I:N m.Payload = m.Payload[:N] (a shorter view of the same buffer; N <= len)
              w:I the message unwrap(wrap("t", m_I)) returns (a decoded message: nil metadata stays nil)
          RES: + created | cXY copied (copy.Equals(orig), orig.Equals(copy)) | . done | P panic | v<hex> | t | f
     env DEST MSG                    -> ok E:<dest>/<uuid>/<payload>/<meta> W:<wrapper metadata> U:<dest> <MSG> | err:wrap
@@ -97,6 +98,7 @@ def opOf (s : String) : Option Op :=
   | ["u", i, u] => do pure (.setUuid (← i.toNat?) (← strOfHex u))
   | ["p", i, p] => do pure (.setPayload (← i.toNat?) (← payloadOf p))
   | ["w", i] => do pure (.rewrap (← i.toNat?))
+  | ["t", i, n] => do pure (.truncPayload (← i.toNat?) (← n.toNat?))
   | _ => none
 
 def resTok : Res → String
